@@ -162,6 +162,42 @@ def borrowed_and_name_cases(ctx):
             return False
         return True
     n += H.legacy_dictionary_cases(ctx, ljudge)
+    # requests the machine cannot satisfy (a capacity of 2**62 samples) on borrowed buffers of every layout: the refusal (MemoryError, or
+    # ValueError for memory the array does not own) leaves everything as it was, including WHICH memory the waveform lives on
+    import numpy as _np
+    from nitypes.waveform import AnalogWaveform as _A, DigitalWaveform as _D, Spectrum as _S
+    layouts = [("C-ordered 2-D", lambda: _np.zeros((4, 3), _np.uint8)), ("Fortran-ordered 2-D", lambda: _np.asfortranarray(_np.arange(12, dtype=_np.uint8).reshape(4, 3) % 2)),
+               ("column-strided 2-D", lambda: (_np.arange(24, dtype=_np.uint8).reshape(4, 6) % 2)[:, ::2]), ("1-D", lambda: _np.arange(4, dtype=_np.uint8) % 2),
+               ("transposed 2-D", lambda: (_np.arange(12, dtype=_np.uint8).reshape(3, 4) % 2).T)]
+    for lname, mk in layouts:
+        for huge in (2 ** 62, 2 ** 40 * 3):
+            arr = mk()
+            r = outcome(lambda: _D(data=arr))
+            if r[0] != "ok":
+                continue
+            w = r[1]
+            before, shares, flags = H.observe(w), _np.shares_memory(w.data, arr), (w.data.flags.c_contiguous, w.data.flags.f_contiguous, w.data.strides)
+            o = outcome(lambda: setattr(w, "capacity", huge))
+            after, shares2, flags2 = H.observe(w), _np.shares_memory(w.data, arr), (w.data.flags.c_contiguous, w.data.flags.f_contiguous, w.data.strides)
+            n += 1
+            ctx.case(("absurd-capacity", lname, huge))
+            if o[0] == "err" and (after != before or shares != shares2 or flags != flags2):
+                ctx.violation(what="a refused capacity change left the waveform on other memory / changed it", layout=lname, capacity=huge, error=show(o)[:100],
+                              observed=f"shares the caller's array: {shares2}, (C, F, strides) = {flags2}", required=f"shares the caller's array: {shares}, (C, F, strides) = {flags}")
+    for cls, mk in ((_A, lambda: _np.arange(5.0)), (_A, lambda: _np.arange(10.0)[::2]), (_S, lambda: _np.arange(5.0))):
+        arr = mk()
+        r = outcome(lambda: cls(raw_data=arr) if cls is _A else cls(data=arr))
+        if r[0] != "ok":
+            continue
+        w = r[1]
+        get = (lambda: w.raw_data) if cls is _A else (lambda: w.data)
+        before, shares = H.observe(w), _np.shares_memory(get(), arr)
+        o = outcome(lambda: setattr(w, "capacity", 2 ** 62))
+        n += 1
+        ctx.case(("absurd-capacity", cls.__name__))
+        if o[0] == "err" and (H.observe(w) != before or _np.shares_memory(get(), arr) != shares):
+            ctx.violation(what="a refused capacity change left the waveform on other memory / changed it", cls=cls.__name__, error=show(o)[:100],
+                          observed=f"shares: {_np.shares_memory(get(), arr)}", required=f"shares: {shares}")
     n += H.narrow_scalar_cases(ctx, lambda info, obs, req: ctx.violation(what="a call with narrow NumPy integer scalars differs from the call with the same Python ints", observed=obs, required=req, **info))
     # sources carrying property values of unusual types (whatever a caller put into the mapping): the append either stores them or
     # refuses them, but never half-way
